@@ -60,11 +60,16 @@ class Case:
     __slots__ = ("id", "pkg", "root", "fmt", "defs", "vir", "hyp")
 
 
+TAGS = collections.Counter()   # coverage rows of the harness ("T <tag> <count>"): what the transformations produced
+
+
 def run_stream(hb, hstream="c08-lab", **kw):
     rows = harness(hb, hstream, **kw)
     cases, docs, skipped = {}, [], []
     for r in rows:
-        if r[0] == "S":
+        if r[0] == "T" and len(r) == 3 and "pinned" not in kw:
+            TAGS[r[1]] += int(r[2])
+        elif r[0] == "S":
             c = Case()
             c.id, c.pkg, c.root, c.fmt, c.defs, c.vir = r[1:7]
             c.hyp = ""
@@ -440,7 +445,12 @@ def main():
     #    array→array→struct, inner container inline or a named collection), faults inside those structs
     r.stream("c08-lab-nest", n=24 if quick else 72, seed=c.seed + 13, formats="jsonschema,openapi,cue",
              deepnest=1, deep=10 if quick else 12, switches=NO_NULL_ELEMS, docs=3, faults=4)
-    # 6. exclusive bounds in the three formats, documents exactly on every bound
+    # 6. sibling-sensitive shapes: member names that differ only by letter case (exactly one of the two required),
+    #    the same nullable union of plain scalars on several required members; for every rich valid document the
+    #    valid variants that omit one optional member / hold null at one nullable member
+    r.stream("c08-lab-shapes", n=12 if quick else 48, seed=c.seed + 17, formats="jsonschema,openapi,cue",
+             casetwins=1, sharedunions=1, variants=14, switches=NO_NULL_ELEMS, docs=3, faults=4)
+    # 7. exclusive bounds in the three formats, documents exactly on every bound
     r.stream("c08-excl", hstream="c08-excl", n=5 if quick else 40, seed=c.seed)
     r.report()
 
@@ -461,8 +471,14 @@ def main():
              "map→array, array→map, map→map and array→array occur, inside the strict model",
              all(r.deep[n + " " + k] > 0 for n in DEEP_NESTINGS for k in STRICT_KINDS)
              and st["deep_faults_outside_strict_model"] * 10 <= st["deep_faults"], dict(r.deep))
+    c.oblige("sibling-sensitive shapes exercised: case-variant member names (one of two required) with the optional "
+             "twin omitted, a nullable scalar union on two or more required members with null at each use",
+             all(TAGS[k] > 0 for k in ("term.caseTwinMembers", "term.sharedNullableUnionUses", "omitOptional",
+                                       "omitOptional.caseTwinOfRequired", "nullAtNullable",
+                                       "nullAtNullable.requiredUnionUsedTwice")), dict(TAGS))
     c.cov["distribution"] = {"fault_kinds": dict(r.kinds), "constructs_on_fault_paths": dict(r.shapes),
                              "faults_below_two_or_more_containers": dict(r.deep),
+                             "valid_variants_and_shapes": dict(TAGS),
                              "stats": {k: v for k, v in st.items()}}
     c.cov["oracle_failures"] = st["oracle_failures"]
     front_keeps_tie(c)   # constraints through the front-ends (JSON Schema, OpenAPI): instances on the real IR
